@@ -238,6 +238,21 @@ static void run_query(Out& out, const std::string& id, const std::string& payloa
             }
         }
     }
+    // a copy of the repetition (every element copy makes one) enumerates the same offsets and extrema
+    if (verdict == "ok") {
+        Repetition cp = {};
+        cp.copy_from(r);
+        Array<Vec2> o2 = {}, e2 = {};
+        cp.get_offsets(o2);
+        cp.get_extrema(e2);
+        bool good = cp.type == r.type && cp.get_count() == cnt && o2.count == off.count && e2.count == ext.count;
+        for (uint64_t k = 0; good && k < off.count; k++) good = o2[k].x == off[k].x && o2[k].y == off[k].y;
+        for (uint64_t k = 0; good && k < ext.count; k++) good = e2[k].x == ext[k].x && e2[k].y == ext[k].y;
+        if (!good) verdict = "FAIL repetition:copy a copy of the repetition (copy_from) does not enumerate the offsets / extrema of the original";
+        o2.clear();
+        e2.clear();
+        cp.clear();
+    }
     out.P(id, verdict);
     off.clear();
     ext.clear();
